@@ -7,7 +7,8 @@ from common import cnode, cstr, clist, enc_node, dec_node
 import impl
 from impl import Document, extract, build, no_gc
 import nsgen
-from nsgen import (gen_src, gen_api_tree, gen_map, caller_term, recorded_order, ord_term, real_serialize)
+from nsgen import (gen_src, gen_api_tree, gen_map, gen_redeclare_case, caller_term, recorded_order, ord_term,
+                   real_serialize)
 
 XML_NS = impl.XML_NS
 XMLNS_NS = "http://www.w3.org/2000/xmlns/"
@@ -400,6 +401,8 @@ def fixed_cases():
     maps = [None, {}, {None: "u1"}, {"": "u2"}, {"p": "u1"}, {"tei": "t"}, {"ns0": "u2"}, {"p": "u1", "q": "u2"},
             {"xmldsig": "u1"}, {"xmlsec": "u2", "xm": "u1"}, {"xmlx": "t", "x": "u2"}]
     out = [{"route": "parse", "src": s, "mapping": mapping_json(m)} for s in srcs for m in maps]
+    out.append({"route": "parse", "src": '<r:root xmlns:r="u:r" xmlns:d="u:d"><d:item><plain/></d:item></r:root>',
+                "mapping": [["r", "u:r"], [None, "u:d"]]})
     api = [("tag", "", "r", [], [("text", "a"), ("text", "b"), ("tag", "u1", "x", [("u2", "k", 'v"<')], [])]),
            ("tag", "u1", "r", [("", "k", "&amp;")], [("pi", "t", ""), ("comment", ""), ("text", "]]>")])]
     return out + [{"route": "api", "tree": t, "mapping": None} for t in api]
@@ -421,7 +424,10 @@ def run(ctx, args):
     for i in range(n):
         m = mapping_json(gen_map(ctx.rng, colliding=ctx.rng.random() < 0.3))
         r = ctx.rng.random()
-        if r < 0.55:
+        if r < 0.08:
+            src, mm = gen_redeclare_case(ctx.rng)
+            cases.append({"route": "parse", "src": src, "mapping": mapping_json(mm)})
+        elif r < 0.55:
             cases.append({"route": "parse", "src": gen_src(ctx.rng, rich=True), "mapping": m})
         else:
             cases.append({"route": "api", "tree": gen_api_tree(ctx.rng, special=ctx.rng.random() < 0.1), "mapping": m})
